@@ -50,6 +50,8 @@ def explore(res, tier, seed, model_ok=True):
     res.rule = ('%d base scenarios (17 fixed - three of them wss:// connections, whose socket has unwrap()/pending() like an SSLSocket - covering every yield point of run(): Connecting, ConnectFail, Connected, housekeeping Poll, Unresponsive, Ready, messages, Closing, Closed, Rejected, ProtocolError, Disconnected; rest random) '
                 'x every event index x 4 abandonment mechanisms (generator close(), break+drop, exception in handler, exception leaving a with-block); '
                 'a sample of the same abandonments as the second connection on an object whose first connection ran in a with-block / raised / was closed by the server; the generator closed while ANOTHER THREAD is inside a send (plain, compressed, ping, close()) at every sync point of that send (deterministic scheduler of C11); oracle: simulated socket and selector both closed afterwards; non-trivial = abandonment at an event where a socket exists; distinct by (scenario, index, mechanism)') % nbase
+    import closesock
+    closesock.run(res, model_ok)
     bases = base_scenarios(rng, nbase)
     base_pairs = coreutil.run_pairs(bases, model_ok)
     scs, meta = [], []
@@ -185,6 +187,10 @@ def explore_threads(res, tier):
 
 
 def replay(rp):
+    if isinstance(rp.get('input'), dict) and 'closesock' in rp['input']:
+        import closesock
+        print(closesock.real_one(tuple(rp['input']['closesock'])))
+        return 0
     if isinstance(rp.get('input'), dict) and 'threads' in rp['input']:
         import thrutil
         return thrutil.replay(dict(input=rp['input']['threads']))
